@@ -411,6 +411,7 @@ func genC10(c *Ctx) {
 	}
 	c10Primitives(c, nprim)
 	c10ExtraKeyBoundaries(c)
+	c10ReservedTagDraws(c)
 	for i := 0; i < nsess; i++ {
 		pol := []int{polV3, polV2, polV2 | polV3}[i%3]
 		pols := []int{pol, pol}
@@ -579,6 +580,42 @@ func c10ExtraKeyBoundaries(c *Ctx) {
 				c.Violate("extra-key-deviation", trig, fmt.Sprintf("UseExtraSymmetricKey succeeded with %d bytes of usage data but the peer was not given the key (TLV type 8 with a 16-bit length of 4 + %d does not exist)", l, l), s.trace[len(s.trace)-min2(6, len(s.trace)):])
 			}
 			c.Rep.Evaluations++
+		}
+	}
+}
+
+// the instance tag of a v3 conversation is never one of the reserved values (below 0x100), however many of those the
+// random source produces first; the exchange completes and every header and fragment prefix carries the legal tag
+func c10ReservedTagDraws(c *Ctx) {
+	draws := [][]byte{{0x42}, {0, 0xff}, {1, 2, 3}, {0x42, 7, 0, 0xff}, {0xff, 0xfe, 0, 1, 2}, {0, 0, 0, 0, 0, 0, 0, 0}}
+	for _, d := range draws {
+		for who := 1; who <= 2; who++ {
+			pols := []int{polV3, polV3}
+			s := newSys(pols, c.R.U64())
+			s.ps[who].rnd.lowTags = append([]byte{}, d...)
+			trig := fmt.Sprintf("party=%d,reserved-draws=%d", who, len(d))
+			ok := s.Handshake(1, 2)
+			s.Send(who, []byte("after"))
+			s.Pump(1, 2, 6)
+			c.Count("reserved-tag-draws")
+			c.Rep.Evaluations++
+			if s.panicked {
+				c.Violate("panic", trig, "panic while the random source produced reserved instance tag values", s.trace)
+				continue
+			}
+			for _, m := range s.ps[who].outs {
+				ver, _, hdr, _, dec := refDecode(m)
+				if !dec || ver != 3 || len(hdr) < 11 {
+					continue
+				}
+				if tag := binary.BigEndian.Uint32(hdr[3:7]); tag < 0x100 {
+					c.Violate("spec-deviation", trig, fmt.Sprintf("a version 3 message carries the reserved sender instance tag %#x", tag), s.trace)
+					break
+				}
+			}
+			if !ok {
+				c.Violate("spec-deviation", trig, "the key exchange did not complete after the random source produced reserved instance tag values first", s.trace)
+			}
 		}
 	}
 }
